@@ -314,6 +314,8 @@ def run_impl(ctx, scn, seed):
         if st == "done":
             out = {"outcome": r["outcome"], "exc": r["exc"], "wire_frames": r["wire_frames"],
                    "wire_error": r["wire_error"], "top": len(r["top"])}
+            if r.get("wire_match") is False:
+                out["wire_match"], out["wire_got"], out["wire_want"] = False, r["wire_got"], r["wire_want"]
         elif st == "blocked":
             out = {"outcome": "blocked", "exc": None, "wire_frames": 0, "wire_error": None, "top": 0}
         else:
@@ -1114,6 +1116,10 @@ def oracle(scn, obs, notes):
             if o["wire_error"] or o["wire_frames"] != want_wire or o["top"] != want_top:
                 probs.append("op %d (%s %s, %s) not processed normally: wire_frames=%s wire_error=%s top=%s"
                              % (i, o["op"][0], o["op"][1], o["role"], o["wire_frames"], o["wire_error"], o["top"]))
+            elif o.get("wire_match") is False:
+                probs.append("op %d (%s %s, %s) not processed normally: the frame the peer decrypts is not the "
+                             "stanza's encoding (got %s.., want %s..)"
+                             % (i, o["op"][0], o["op"][1], o["role"], o["wire_got"][:60], o["wire_want"][:60]))
     if scn["reconnect"] and notes.get("reconnect") != "done":
         probs.append("reconnect after the failure: %s" % notes.get("reconnect"))
     return probs
